@@ -377,6 +377,7 @@ inductive XH where
 inductive Props where
   | nil
   | cons (name : Bytes) (ty : Bytes) (xh : XH) (children : Props) (rest : Props)
+  deriving DecidableEq
 
 structure Ann where
   path : List Bytes
